@@ -37,7 +37,7 @@ RULE = ("case = deployment + k + call order + schedule; non-trivial = >=2 comput
         "bound); distinct by sha1(case)")
 ASSUMPTIONS = ["symmetric route tables with one common default", "all agents in one process (thread mode)"]
 BUDGET = {"quick": {"workers": 8, "examples": 500, "seconds": 45},
-          "thorough": {"workers": 16, "examples": 4000, "seconds": 900}}
+          "thorough": {"workers": 16, "examples": 16000, "seconds": 900}}
 
 # mixed case: the paths table is a sorted list of (cost, path) and "__hosting__" sorts between upper and lower case
 AGENTS = ["a1", "A2", "a10", "B", "a_1", "Z3"]
